@@ -40,8 +40,8 @@ def run(c):
     c.distinct_nontrivial = len(distinct)
     return c.finish(
         "exploration",
-        rule="schedule = (key type, attack, message 1..3, offset, mask); quick: ed25519, alternating masks 0x01/0x80 at every offset of every handshake message, truncation at every third length, 30 seeded double flips per message, plus drop/dup/replay per message, mitm, prologue mismatch for ed25519/secp256k1/ecdsa identities; thorough: three key types, masks 0x01/0x80/0xff, every truncation length, 300 double flips per message; distinct = distinct schedules with an attack",
+        rule="schedule = (key type, attack, message 1..3, offset, mask); quick: ed25519, alternating masks 0x01/0x80 at every offset of every handshake message, truncation at every third length, 30 seeded double flips per message, plus drop/dup/replay per message, mitm, prologue mismatch for ed25519/secp256k1/ecdsa/rsa identities; thorough: four key types, masks 0x01/0x80/0xff, every truncation length, 300 double flips per message; distinct = distinct schedules with an attack",
         assumptions=["ideal cryptography in the model; the real-code runs check that every tampering is detected or harmless, not cryptographic strength",
-                     "RSA identities not exercised (no offline RSA key generation)"],
+                     "RSA identities use the three fixed test keys of libp2p-identity (no offline RSA key generation)"],
         extra={"outcomes": outcomes},
     )
